@@ -127,9 +127,15 @@ pub fn c05_scenario(ch: &mut Chooser, thorough: bool) -> Exec {
     let down: usize = if crash_at.is_some() || h1_finishes { *ch.of("bounce_after_steps", &[0usize, 1, 2, 5]) } else { 0 };
     let bounce_without_crash = crash_at.is_none() && !h1_finishes && ch.flag("bounce_h1_without_crash_at_step_3");
     let steps = if thorough { 20 } else { 12 };
+    // with a short simulation duration every later step reports "ran for duration"; the
+    // clocks keep advancing all the same when the caller steps on
+    let limited = ch.flag("simulation_duration_of_4_ticks_and_keep_stepping");
 
     let mut b = builder(tick);
     b.epoch(epoch);
+    if limited {
+        b.simulation_duration(Duration::from_millis(4 * tick));
+    }
     if random_order {
         b.enable_random_order();
     }
@@ -189,8 +195,10 @@ pub fn c05_scenario(ch: &mut Chooser, thorough: bool) -> Exec {
         }
         st.borrow_mut().step = k;
         if let Err(e) = sim.step() {
-            violation = Some(Violation::new("sim-error", e.to_string()));
-            break;
+            if !(limited && e.to_string().contains("Ran for duration")) {
+                violation = Some(Violation::new("sim-error", e.to_string()));
+                break;
+            }
         }
         // the simulation clock itself
         let want = tickd * (k as u32 + 1);
@@ -239,7 +247,7 @@ pub fn c05_scenario(ch: &mut Chooser, thorough: bool) -> Exec {
     if let Some(v) = violation.as_mut() {
         v.sig = v.clause.to_string();
         v.scenario = format!(
-            "c05 tier={} tick={tick} random={random_order} d1={d1} d2={d2} late_at={late_at} finishes={h1_finishes} crash_at={crash_at:?} down={down} bounce_only={bounce_without_crash} victim={victim} epoch={epoch_dur:?}",
+            "c05 tier={} tick={tick} random={random_order} d1={d1} d2={d2} late_at={late_at} finishes={h1_finishes} crash_at={crash_at:?} down={down} bounce_only={bounce_without_crash} limited={limited} victim={victim} epoch={epoch_dur:?}",
             if thorough { "thorough" } else { "quick" }
         );
         v.actions = obs.clone();
